@@ -21,6 +21,10 @@ struct Conn {
     inf_injected: bool,
     /// C05 ghost: newest tracker write per slot (seq, conn id, time), purged on link removal.
     trk_ghost: std::collections::HashMap<u32, (u32, u64, u64)>,
+    /// RTT velocity (ms/sample) handed to the next `recover` ops of a link, set by `setc <i> vel=<f64 bits>`.
+    /// The model's `recover` takes the Boolean `velocity > 2.0`; the op line carries that bit and the
+    /// real code gets the float, so the abstraction itself is checked by the correspondence.
+    vel: Vec<Option<f64>>,
 }
 
 fn show_phase(p: &LinkPhase) -> String {
@@ -82,7 +86,7 @@ impl Conn {
     fn new() -> Self {
         let rt = tokio::runtime::Builder::new_current_thread().enable_all().build().unwrap();
         let listener = rt.block_on(async { tokio::net::UdpSocket::bind("127.0.0.1:0").await.unwrap() });
-        Conn { rt, listener, links: Vec::new(), trk: SequenceTracker::new(), spec: Vec::new(), inf_injected: false, trk_ghost: Default::default() }
+        Conn { rt, listener, links: Vec::new(), trk: SequenceTracker::new(), spec: Vec::new(), inf_injected: false, trk_ghost: Default::default(), vel: Vec::new() }
     }
 
     fn show(&self) -> String {
@@ -128,7 +132,131 @@ impl Conn {
     }
 }
 
-const DT: [u64; 12] = [0, 1, 10, 299, 300, 301, 999, 1000, 1001, 2001, 5001, 10001];
+/// Time steps: small ones (repeated, so that most NAKs still fall inside the tracker's 5 s memory) and
+/// every threshold of the recovery pacing code exactly, one below and one above: 300 / 500 (fast
+/// increment / minimum wait), 1000 (normal increment wait, burst window), 2000 (normal minimum wait),
+/// 5000 / 7000 / 10000 (recovery tiers; 5000 is also the tracker age).
+const DT: [u64; 29] = [
+    0, 0, 0, 1, 1, 10, 10, 10, 299, 300, 301, 499, 500, 501, 999, 1000, 1001, 1999, 2000, 2001, 4999, 5000, 5001, 6999,
+    7000, 7001, 9999, 10000, 10001,
+];
+/// Ages of the last NAK / last window increase injected before a recovery tick.
+const LNAK_AGE: [u64; 24] = [
+    0, 1, 299, 300, 301, 400, 499, 500, 501, 999, 1000, 1001, 1999, 2000, 2001, 4999, 5000, 5001, 6999, 7000, 7001, 9999,
+    10000, 10001,
+];
+const LINCR_AGE: [u64; 10] = [0, 1, 299, 300, 301, 499, 500, 999, 1000, 1001];
+
+/// RTT velocities handed to time-based recovery: both sides of the 2.0 gate, 2.0 itself, the next
+/// float above it, large, negative, non-finite.
+fn velocities() -> [f64; 12] {
+    [0.0, 2.0, 2.0000001, f64::from_bits(2.0f64.to_bits() + 1), f64::from_bits(2.0f64.to_bits() - 1), 3.0, 8.0, 9.5, 50.0, f64::NAN, -1.0, f64::INFINITY]
+}
+
+/// `setc <i> vel=<bits>` + `recover <i> <now> <velocity > 2.0>`.
+fn push_recover(ops: &mut Vec<String>, rng: &mut Rng, i: u64, now: u64) {
+    if rng.chance(3, 4) {
+        let v = *rng.pick(&velocities());
+        ops.push(format!("setc {i} vel={}", v.to_bits()));
+        ops.push(format!("recover {i} {now} {}", if v > 2.0 { 1 } else { 0 }));
+    } else {
+        ops.push(format!("recover {i} {now} {}", rng.below(2)));
+    }
+}
+
+/// Targeted case: an SRTLA ACK datagram of 2..10 entries whose +29 test (in-flight x 1000 > window)
+/// flips INSIDE the datagram because of the +1 every earlier entry credited to the link.
+fn gen_straddle_case(rng: &mut Rng) -> Vec<String> {
+    let n = rng.range(1, 3) as usize;
+    let classic = if rng.chance(4, 5) { 1 } else { 0 };
+    let mut now: u64 = 1_000_000 + rng.below(1000);
+    let mut ops = vec![format!("new {n}")];
+    for i in 0..n {
+        ops.push(format!("setc {i} c=1 lr={}", now - rng.below(500)));
+    }
+    let mut next: u32 = match rng.below(3) {
+        0 => rng.below(50) as u32,
+        _ => (rng.next_u64() as u32) & 0x7fff_0000,
+    };
+    let mut held: Vec<Vec<u32>> = vec![Vec::new(); n];
+    for _round in 0..rng.range(1, 4) {
+        now += *rng.pick(&[0u64, 1, 10, 300]);
+        let l = rng.below(n as u64) as usize;
+        for j in 0..n {
+            if j != l {
+                for _ in 0..rng.below(4) {
+                    ops.push(format!("route {j} {next} {now}"));
+                    held[j].push(next);
+                    next = (next + 1) & 0x7fff_ffff;
+                }
+            }
+        }
+        let npk = rng.range(3, 40);
+        for _ in 0..npk {
+            ops.push(format!("route {l} {next} {now}"));
+            held[l].push(next);
+            next = (next + 1) & 0x7fff_ffff;
+        }
+        // the list: entry `k` (1-based, >= 2) is owned by `l`; the others are owned by `l`, by another
+        // link, or by nobody
+        let m = rng.range(2, 10) as usize;
+        let k = rng.range(2, m as u64) as usize;
+        let mut pool = held[l].clone();
+        let mut list: Vec<u32> = Vec::new();
+        let mut a = 0usize; // entries owned by `l` before position k
+        for pos in 1..=m {
+            let own = pos == k || rng.chance(2, 3);
+            if own && !pool.is_empty() {
+                let x = pool.remove(rng.below(pool.len() as u64) as usize);
+                list.push(x);
+                if pos < k {
+                    a += 1;
+                }
+            } else {
+                let others: Vec<u32> = (0..n).filter(|j| *j != l).flat_map(|j| held[j].iter().copied()).filter(|x| !list.contains(x)).collect();
+                if !others.is_empty() && rng.chance(1, 2) {
+                    list.push(*rng.pick(&others));
+                } else {
+                    list.push(next.wrapping_add(1000 + rng.below(1000) as u32) & 0x7fff_ffff);
+                }
+            }
+        }
+        let inf = held[l].len() as i64;
+        let w0 = if rng.chance(3, 4) {
+            // in-flight after entry k is removed = inf - a - 1; the a earlier entries earn +29 + 1 each,
+            // the other k - 1 - a earlier entries credit +1 each: straddles iff 1 <= d <= k - 1
+            let d = if rng.chance(2, 3) { rng.range(1, k as u64 - 1) as i64 } else { rng.below(13) as i64 };
+            (inf - a as i64 - 1) * 1000 - 29 * a as i64 - d
+        } else {
+            let j = rng.range(1, (npk).min(10)) as i64;
+            (inf - j) * 1000 - rng.below(13) as i64
+        };
+        ops.push(format!("setc {l} w={}", w0.clamp(1000, 60000)));
+        for j in 0..n {
+            if j != l && rng.chance(1, 2) {
+                // neighbours sit just below a multiple of 1000 as well (they earn on their own entries)
+                let w = (held[j].len() as i64 - 1).max(1) * 1000 - rng.below(13) as i64;
+                ops.push(format!("setc {j} w={}", w.clamp(1000, 60000)));
+            }
+        }
+        let arrival = if rng.chance(3, 4) { l } else { rng.below(n as u64) as usize };
+        ops.push(format!("evt {arrival} {classic} {now} - {} -", join_list(&list)));
+        for x in &list {
+            // every number sits in at most one log here, so the retiring link is its holder
+            for h in held.iter_mut() {
+                h.retain(|y| y != x);
+            }
+        }
+        if rng.chance(1, 3) {
+            let ack = next.wrapping_sub(1 + rng.below(8) as u32) & 0x7fff_ffff;
+            ops.push(format!("evt {l} {classic} {now} {ack} - -"));
+            for h in held.iter_mut() {
+                h.retain(|y| *y > ack);
+            }
+        }
+    }
+    ops
+}
 
 impl Component for Conn {
     fn rule(&self) -> &'static str {
@@ -138,11 +266,21 @@ impl Component for Conn {
          stale, far ahead, 63/64/65 past the mark), SRTLA ACK lists, NAK lists (singles, repeats, unknown, tracked \
          to another / removed / expired link), resets (recovery, reconnect, REG3), time-based recovery ticks with \
          high/low RTT velocity, link removal, injected windows on {1000,1029,2000,2100,11971,12000,59971,60000} and \
-         in-flight up to i32::MAX. Non-trivial: an ACK/NAK removed something, or a send at/below the high-water \
-         mark, or a tracker hit on a different link than the first holder."
+         in-flight up to i32::MAX; time steps and injected last-NAK / last-increase ages on every pacing threshold \
+         (300, 500, 1000, 2000, 5000, 7000, 10000, each -1 / exact / +1); recovery ticks with RTT velocity in {0, 2.0 \
+         exactly, next float below / above 2.0, 2.0000001, 3, 8, 9.5, 50, NaN, -1, inf} (`setc vel=` carries the float to \
+         the real code, the op line carries the model's Boolean velocity > 2.0); `trk` entries naming an absent / \
+         sentinel / other conn id at the edge of the 5 s memory followed by the NAK; SRTLA ACK lists go through the real \
+         fan-out as ONE datagram (2..10 entries half of the time); every 10th case is a targeted scenario in which the \
+         +29 test flips inside one datagram because of the earlier entries' +1s. Thorough tier: histories up to 150 \
+         ops and the complete space `hist4`. Non-trivial: an ACK/NAK removed something, or a send at/below the \
+         high-water mark, or a tracker hit on a different link than the first holder."
     }
 
-    fn gen_case(&mut self, rng: &mut Rng, _tier: Tier, _idx: usize) -> Vec<String> {
+    fn gen_case(&mut self, rng: &mut Rng, tier: Tier, idx: usize) -> Vec<String> {
+        if idx % 10 == 3 {
+            return gen_straddle_case(rng);
+        }
         let n = rng.range(1, 4) as usize;
         let mut ops = vec![format!("new {n}")];
         let base: u32 = match rng.below(4) {
@@ -162,7 +300,10 @@ impl Component for Conn {
             }
             ops.push(s);
         }
-        let len = rng.range(10, 60);
+        let len = match tier {
+            Tier::Quick => rng.range(10, 60),
+            Tier::Thorough => rng.range(10, 150),
+        };
         let seq_near = |rng: &mut Rng, next_seq: u32, hi_ack: u32| -> u32 {
             match rng.below(12) {
                 8..=11 => next_seq.wrapping_sub(1 + rng.below(6) as u32) & 0x7fff_ffff,
@@ -234,8 +375,8 @@ impl Component for Conn {
                     ops.push(format!("evt {i} {} {now} {a} - -", rng.below(2)));
                 }
                 10..=12 => {
-                    // SRTLA ACK list
-                    let k = rng.range(1, 4);
+                    // SRTLA ACK list (one datagram: 2..10 entries half of the time)
+                    let k = if rng.chance(1, 2) { rng.range(2, 10) } else { rng.range(1, 4) };
                     let l: Vec<u32> = (0..k).map(|_| seq_near(rng, next_seq, hi_ack)).collect();
                     ops.push(format!("evt {i} {} {now} - {} -", rng.below(2), join_list(&l)));
                 }
@@ -257,7 +398,7 @@ impl Component for Conn {
                     }
                 }
                 17 => {
-                    ops.push(format!("recover {i} {now} {}", rng.below(2)));
+                    push_recover(&mut ops, rng, i, now);
                 }
                 18 => {
                     // injected window / in-flight / congestion state
@@ -272,19 +413,46 @@ impl Component for Conn {
                         };
                         s += &format!(" inf={inf}");
                     }
+                    let mut paced = false;
+                    if rng.chance(1, 2) {
+                        s += &format!(" lnak={}", now.saturating_sub(*rng.pick(&LNAK_AGE)));
+                        paced = true;
+                    }
                     if rng.chance(1, 3) {
-                        s += &format!(" lnak={}", now.saturating_sub(*rng.pick(&[0u64, 400, 501, 2001, 5001, 7001, 10001])));
+                        s += &format!(" lincr={}", now.saturating_sub(*rng.pick(&LINCR_AGE)));
+                        paced = true;
                     }
                     if rng.chance(1, 4) {
-                        s += &format!(" lincr={}", now.saturating_sub(*rng.pick(&[0u64, 300, 301, 1000, 1001])));
+                        s += &format!(" fr={}", rng.below(2));
                     }
                     ops.push(s);
+                    if paced && rng.chance(3, 4) {
+                        // probe the pacing thresholds right away
+                        push_recover(&mut ops, rng, i, now);
+                    }
                 }
                 _ => {
                     if n > 1 && rng.chance(1, 3) {
                         ops.push(format!("remove {i}"));
                         // keep indices valid in the rest of the case by re-adding nothing; ops on a
                         // missing index are answered identically (unchanged state) by both sides
+                    } else if rng.chance(1, 2) {
+                        // a tracker entry for a recently routed number that names an absent conn id
+                        // (removed link, id 0 = the "empty" sentinel), another present link, or the same
+                        // link at the edge of the 5 s memory; then the NAK for it
+                        let s = next_seq.wrapping_sub(1 + rng.below(6) as u32) & 0x7fff_ffff;
+                        let cid = match rng.below(5) {
+                            0 => 0,
+                            1 => 99,
+                            2 => n as u64 + 1 + rng.below(3),
+                            _ => 1 + rng.below(n as u64),
+                        };
+                        let t = now.saturating_sub(*rng.pick(&[0u64, 0, 1, 4999, 5000, 5001]));
+                        ops.push(format!("trk {s} {cid} {t}"));
+                        if rng.chance(1, 4) {
+                            ops.push(format!("get {s} {now}"));
+                        }
+                        ops.push(format!("evt {i} {} {now} - - {s}", rng.below(2)));
                     } else {
                         let s = seq_near(rng, next_seq, hi_ack);
                         ops.push(format!("get {s} {now}"));
@@ -295,50 +463,60 @@ impl Component for Conn {
         ops
     }
 
-    /// `hist4`: ALL histories of exactly 4 operations over 2 links and 4 sequence numbers from the
-    /// alphabet {send i s, cumulative ACK a, SRTLA ACK of s arriving on i, NAK s, reset i}
-    /// (32 symbols -> 32^4 = 1 048 576 histories).
+    /// `hist4`: ALL histories of exactly 4 operations over 2 links and 4 sequence numbers, for two
+    /// alphabets: `hist4a` = {send i s, cumulative ACK a, SRTLA ACK of s arriving on i, NAK s,
+    /// recovery reset of i, reconnect i} in classic mode (28 symbols -> 28^4 = 614 656 histories) and
+    /// `hist4b` = the same events in enhanced mode with the two other reset kinds (reconnect reset and
+    /// REG3 clear; 30 symbols -> 810 000 histories). `hist4` runs both (1 424 656 histories).
     fn exhaustive(&mut self, which: &str) -> Option<Vec<Vec<String>>> {
-        if which != "hist4" {
-            return None;
-        }
-        let mut alphabet: Vec<String> = Vec::new();
-        let base = 1000u32;
-        for i in 0..2 {
-            for s in 0..4 {
-                alphabet.push(format!("route {i} {} 1000000", base + s));
+        let parts: &[(u8, &[&str])] = match which {
+            "hist4" => &[(1, &["recovery"]), (0, &["reconnect", "reg3"])],
+            "hist4a" => &[(1, &["recovery"])],
+            "hist4b" => &[(0, &["reconnect", "reg3"])],
+            _ => return None,
+        };
+        let mut cases = Vec::new();
+        for (classic, resets) in parts {
+            let mut alphabet: Vec<String> = Vec::new();
+            let base = 1000u32;
+            for i in 0..2 {
+                for s in 0..4 {
+                    alphabet.push(format!("route {i} {} 1000000", base + s));
+                }
             }
-        }
-        for a in 0..4 {
-            alphabet.push(format!("evt 0 1 1000100 {} - -", base + a));
-        }
-        for i in 0..2 {
-            for s in 0..4 {
-                alphabet.push(format!("evt {i} 1 1000200 - {} -", base + s));
+            for a in 0..4 {
+                alphabet.push(format!("evt 0 {classic} 1000100 {} - -", base + a));
             }
-        }
-        for s in 0..4 {
-            alphabet.push(format!("evt 0 1 1000300 - - {}", base + s));
-        }
-        for i in 0..2 {
-            alphabet.push(format!("reset {i} recovery 1000400"));
-            alphabet.push(format!("setc {i} c=1 lr=1000400"));
-        }
-        let k = alphabet.len();
-        let mut cases = Vec::with_capacity(k * k * k * k);
-        for a in 0..k {
-            for b in 0..k {
-                for c in 0..k {
-                    for d in 0..k {
-                        cases.push(vec![
-                            "new 2".to_string(),
-                            "setc 0 c=1 lr=1000000".to_string(),
-                            "setc 1 c=1 lr=1000000".to_string(),
-                            alphabet[a].clone(),
-                            alphabet[b].clone(),
-                            alphabet[c].clone(),
-                            alphabet[d].clone(),
-                        ]);
+            for i in 0..2 {
+                for s in 0..4 {
+                    alphabet.push(format!("evt {i} {classic} 1000200 - {} -", base + s));
+                }
+            }
+            for s in 0..4 {
+                alphabet.push(format!("evt 0 {classic} 1000300 - - {}", base + s));
+            }
+            for i in 0..2 {
+                for kind in resets.iter() {
+                    alphabet.push(format!("reset {i} {kind} 1000400"));
+                }
+                alphabet.push(format!("setc {i} c=1 lr=1000400"));
+            }
+            let k = alphabet.len();
+            cases.reserve(k * k * k * k);
+            for a in 0..k {
+                for b in 0..k {
+                    for c in 0..k {
+                        for d in 0..k {
+                            cases.push(vec![
+                                "new 2".to_string(),
+                                "setc 0 c=1 lr=1000000".to_string(),
+                                "setc 1 c=1 lr=1000000".to_string(),
+                                alphabet[a].clone(),
+                                alphabet[b].clone(),
+                                alphabet[c].clone(),
+                                alphabet[d].clone(),
+                            ]);
+                        }
                     }
                 }
             }
@@ -352,6 +530,7 @@ impl Component for Conn {
         self.trk = SequenceTracker::new();
         self.inf_injected = false;
         self.trk_ghost.clear();
+        self.vel.clear();
         verif_clock::set(None);
     }
 
@@ -374,6 +553,7 @@ impl Component for Conn {
                     self.links.push(c);
                 }
                 self.spec = vec![BTreeSet::new(); n];
+                self.vel = vec![None; n];
                 self.trk = SequenceTracker::new();
                 self.show()
             }
@@ -404,6 +584,9 @@ impl Component for Conn {
                     }
                     if let Some(v) = kv_parse::<i32>(rest, "burst") {
                         c.congestion.nak_burst_count = v;
+                    }
+                    if let Some(v) = kv_parse::<u64>(rest, "vel") {
+                        self.vel[i] = Some(f64::from_bits(v));
                     }
                 }
                 self.show()
@@ -511,24 +694,73 @@ impl Component for Conn {
                     }
                     self.mon_spec_if_clean(mon, &format!("{op} [ack {a}]"));
                 }
-                for s in &sacks {
+                if !sacks.is_empty() {
+                    // The WHOLE SRTLA ACK list goes through the real fan-out in ONE call, as the shell
+                    // does for one datagram; the reference rules (+29 on the earning link only while
+                    // in-flight x 1000 exceeds its window, +1 on every connected link per acknowledged
+                    // number, cap 60000) are replayed entry by entry on a ghost and compared at the end.
                     let before: Vec<Snap> = self.links.iter().map(snap).collect();
                     let mut inc = SrtlaIncoming { read_any: true, ..Default::default() };
-                    inc.srtla_ack_numbers.push(*s);
+                    for s in &sacks {
+                        inc.srtla_ack_numbers.push(*s);
+                    }
                     self.events(idx, classic, now, inc);
-                    let si = *s as i32;
-                    // spec: arrival link if it holds it, else the first other holder
-                    let holder = if self.spec[idx].contains(&si) {
-                        Some(idx)
-                    } else {
-                        (0..self.links.len()).find(|j| *j != idx && self.spec[*j].contains(&si))
-                    };
-                    if let Some(h) = holder {
-                        self.spec[h].remove(&si);
-                        mon.count(if h == idx { "sack-arrival-link" } else { "sack-other-holder" });
-                        mon.nontrivial();
-                    } else {
-                        mon.count("sack-unknown");
+                    let nl = self.links.len();
+                    let mut gw: Vec<i32> = before.iter().map(|b| b.w).collect(); // reference windows
+                    let mut hw: Vec<i32> = gw.clone(); // windows if the global +1s were credited after the datagram
+                    let mut gkeys: Vec<Vec<i32>> = before.iter().map(|b| b.keys.clone()).collect();
+                    let mut earned_any: Vec<bool> = vec![false; nl];
+                    let mut straddled = false;
+                    for (k, s) in sacks.iter().enumerate() {
+                        let si = *s as i32;
+                        // spec: arrival link if it holds it, else the first other holder
+                        let holder = if self.spec[idx].contains(&si) {
+                            Some(idx)
+                        } else {
+                            (0..nl).find(|j| *j != idx && self.spec[*j].contains(&si))
+                        };
+                        // the real logs may differ from the set spec only after `setc inf=`; the ghost
+                        // follows the real keys of the pre-state
+                        let gholder = if gkeys[idx].contains(&si) { Some(idx) } else { (0..nl).find(|j| *j != idx && gkeys[*j].contains(&si)) };
+                        if let Some(h) = holder {
+                            self.spec[h].remove(&si);
+                            mon.count(if h == idx { "sack-arrival-link" } else { "sack-other-holder" });
+                            mon.nontrivial();
+                        } else {
+                            mon.count("sack-unknown");
+                        }
+                        if let Some(h) = gholder {
+                            gkeys[h].retain(|x| *x != si);
+                            let inf_after = gkeys[h].len() as i32;
+                            let earn = inf_after.saturating_mul(1000) > gw[h];
+                            let earn_h = inf_after.saturating_mul(1000) > hw[h];
+                            if earn != earn_h && k >= 1 {
+                                straddled = true;
+                            }
+                            if earn {
+                                gw[h] = (gw[h] + 29).min(60000);
+                                mon.count("ack-earned-29");
+                            } else {
+                                mon.count("ack-not-earned");
+                            }
+                            if earn_h {
+                                hw[h] = (hw[h] + 29).min(60000);
+                            }
+                            earned_any[h] = true;
+                        }
+                        for (i, c) in self.links.iter().enumerate() {
+                            if c.connected && c.last_received.is_some() {
+                                gw[i] = (gw[i] + 1).min(60000);
+                            }
+                        }
+                    }
+                    if sacks.len() >= 2 {
+                        mon.count("sack-multi-entry-datagram");
+                    }
+                    if straddled {
+                        // some entry k >= 2 passed / failed the +29 test only because of the +1s of the
+                        // earlier entries of the same datagram
+                        mon.count("ack-threshold-straddled");
                     }
                     for (i, c) in self.links.iter().enumerate() {
                         if c.window < before[i].w {
@@ -541,23 +773,15 @@ impl Component for Conn {
                             mon.fail("C06", "fast-recovery-entered-by-ack", format!("link {i} entered fast recovery on an ACK"));
                         }
                         // C10-style exactness of the per-ACK rule (used by C06 direction clause too)
-                        let earned = holder == Some(i);
-                        let global = c.connected && c.last_received.is_some();
-                        let mut exp = before[i].w;
-                        if earned {
-                            let inf_after = before[i].keys.len() as i32 - 1;
-                            if inf_after.saturating_mul(1000) > exp {
-                                exp = (exp + 29).min(60000);
-                            }
+                        if c.window != gw[i] && classic {
+                            // classic mode: this IS the reference algorithm's window evolution
+                            mon.fail("C10", "ack-rule", format!("classic mode, link {i}: window {} -> {} on SRTLA ACK list {sacks:?} arriving on link {idx}, the reference rules (+29 earned while in-flight x 1000 > window, +1 per acknowledged number on every connected link) give {}", before[i].w, c.window, gw[i]));
                         }
-                        if global {
-                            exp = (exp + 1).min(60000);
-                        }
-                        if !self.inf_injected && c.window != exp {
-                            mon.fail("C06", "ack-rule", format!("link {i}: window {} -> {} on SRTLA ACK {s} (earned={earned}, global={global}), expected {exp}", before[i].w, c.window));
+                        if c.window != gw[i] {
+                            mon.fail("C06", "ack-rule", format!("link {i}: window {} -> {} on SRTLA ACK list {sacks:?} arriving on link {idx} (earned here: {}), the reference rules give {}", before[i].w, c.window, earned_any[i], gw[i]));
                         }
                     }
-                    self.mon_spec_if_clean(mon, &format!("{op} [sack {s}]"));
+                    self.mon_spec_if_clean(mon, &format!("{op} [sacks]"));
                 }
                 for nk in &naks {
                     let before: Vec<Snap> = self.links.iter().map(snap).collect();
@@ -664,7 +888,20 @@ impl Component for Conn {
                     let (bw, bfr) = (c.window, c.congestion.fast_recovery_mode);
                     let connected = c.connected;
                     let label = c.label.clone();
-                    c.congestion.perform_window_recovery(&mut c.window, connected, if vel { 3.0 } else { 0.0 }, &label, now);
+                    let v = match self.vel.get_mut(i).and_then(|v| v.take()) {
+                        Some(v) => {
+                            mon.count(if v.is_nan() { "recover-vel-nan" } else if v == 2.0 { "recover-vel-2.0-exact" } else if v > 2.0 { "recover-vel-high" } else { "recover-vel-low" });
+                            v
+                        }
+                        None => {
+                            if vel {
+                                3.0
+                            } else {
+                                0.0
+                            }
+                        }
+                    };
+                    c.congestion.perform_window_recovery(&mut c.window, connected, v, &label, now);
                     if c.window < bw {
                         mon.fail("C06", "recovery-decreased-window", format!("time recovery decreased window {bw} -> {}", c.window));
                     }
@@ -692,6 +929,9 @@ impl Component for Conn {
                 self.trk_ghost.retain(|_, v| v.1 != id);
                 self.links.remove(i);
                 self.spec.remove(i);
+                if i < self.vel.len() {
+                    self.vel.remove(i);
+                }
                 mon.count("remove");
                 self.show()
             }
